@@ -368,6 +368,18 @@ func (s *Sim) ExitProcess(pid int) {
 	for _, l := range ls {
 		l.once.Do(func() { close(l.closed) })
 	}
+	// The exit of a process ends all its threads: goroutines of the process
+	// that are blocked for good (e.g. handlers blocked on a channel nobody
+	// reads any more) no longer count as live for deadlock and leak verdicts
+	// (see Run); those that can still run are left to finish.
+	self := s.self()
+	s.mu.Lock()
+	for _, g := range s.all {
+		if g.proc == pid && g != self && g.state != stDone {
+			g.procExited = true
+		}
+	}
+	s.mu.Unlock()
 }
 
 // NumConns returns how many connections have been dialed so far.
